@@ -1,7 +1,209 @@
-from sa import opcat, rules_template as T
+"""C07 - requires_grad propagation and grad-mode contexts behave like a stack."""
+import ast, itertools
+from sa import opcat, rules_template as T, rules_engine as E
+from sa.core import norm, body_walk, dotted, names_in
+from sa.cfg import CFG, facts_at
+from sa.report import Incomplete
+
+TMOD = 'synapgrad.tensor'
+TENSOR = TMOD + '.Tensor'
+
+
 def check(model, R, tier):
     ops, problems = opcat.catalogue(model)
     for q, why in problems:
         R.incomplete_at('C07.PROP', q, why)
     T.check_prop_attach(model, R, ops, 'C07')
-    return dict(explanation='x', assumptions=[], technique='x')
+    check_ctor(model, R)
+    check_guards(model, R)
+    check_ctx(model, R, 'no_grad', 'gradient__', False)
+    check_ctx(model, R, 'retain_grads', 'retain_grads__', True)
+    B = E.BackwardInfo(model)
+    E.check_release_predicate(model, R, 'C07', B)
+    E.check_buffer_discipline(model, R, 'C07', B)
+    E.check_reset(model, R, 'C07')
+    check_clients(model, R)
+    return dict(
+        explanation='Decides: for all 48 ops the result flag is the disjunction of requires_grad over exactly the children and grad_fn is attached only under `if out.requires_grad`; '
+                    'Tensor.__init__ stores `requested AND global mode` after the floating-point check; the five flag guards dominate the effects they protect; no_grad / retain_grads '
+                    'save the mode on entry in per-entry storage and restore it unconditionally on exit without swallowing exceptions; tensors that do not require grad never get a buffer; '
+                    'the release predicate keeps leaves and the root. Not decided: user code that assigns the module globals directly.',
+        assumptions=['the module-level flags are only changed through the context managers', 'Python `with` semantics: __exit__ runs on normal and exceptional exit'],
+        technique='template rules over the op catalogue + CFG dominance of guards + typestate (save-on-enter / restore-on-exit) + truth tables')
+
+
+# ------------------------------------------------------------------------------------------------ constructor flag
+def check_ctor(model, R):
+    R.rule('C07.CTOR', 'Tensor.__init__ stores requires_grad AND the global gradient mode, after rejecting non floating-point tensors', floor=2)
+    f = model.func(TENSOR + '.__init__')
+    cfg = CFG(f.node)
+    stores = [n for n in body_walk(f.node) if isinstance(n, ast.Assign) and any(isinstance(t, ast.Attribute) and t.attr == '_requires_grad' for t in n.targets)]
+    if len(stores) != 1:
+        R.incomplete_at('C07.CTOR', f.qualname, 'expected one store to _requires_grad, found %d' % len(stores))
+        return
+    st = stores[0]
+    v = st.value
+    expr = v
+    flagname = None
+    if isinstance(v, ast.Name):
+        flagname = v.id
+        binds = [n for n in body_walk(f.node) if isinstance(n, ast.Assign) and any(isinstance(t, ast.Name) and t.id == v.id for t in n.targets)]
+        if len(binds) != 1:
+            R.incomplete_at('C07.CTOR', f.qualname, 'flag %s has %d bindings' % (v.id, len(binds)))
+            return
+        expr = binds[0].value
+    bad = []
+    try:
+        for req, mode in itertools.product((False, True), repeat=2):
+            def val(t):
+                if t == 'requires_grad': return req
+                if t == 'gradient__': return mode
+                raise Incomplete('atom %s' % t)
+            if E.eval_bool(expr, val) != (req and mode):
+                bad.append((req, mode))
+    except Incomplete as e:
+        R.incomplete_at('C07.CTOR', f.qualname, 'flag expression %s: %s' % (norm(expr), e))
+        return
+    R.ob('C07.CTOR', f.qualname, '_requires_grad = %s' % norm(expr), not bad, 'the stored flag must be `requires_grad and gradient__` (differs for (requested, mode) in %s)' % bad, '%s:%d' % (f.mod.relpath, st.lineno))
+    # floating point check dominates the store
+    guards = [n for n in body_walk(f.node) if isinstance(n, ast.If) and any(isinstance(x, ast.Raise) for x in n.body) and 'is_floating_point' in norm(n.test)]
+    ok = False
+    for g in guards:
+        if not (cfg.dominates(g, st) and flagname):
+            continue
+        mapping = {flagname: ('F', True), 'self.is_floating_point': ('P', True), 'utils.is_floating_point(self.data)': ('P', True), 'utils.is_floating_point(data)': ('P', True)}
+        try:
+            if all(E.eval_bool(g.test, E.atom_valuation(mapping, dict(F=F, P=P))) == (F and not P) for F in (False, True) for P in (False, True)):
+                ok = True
+        except Incomplete:
+            pass
+    R.ob('C07.CTOR', f.qualname, 'float check before the store', ok, 'a tensor that would require grad must be rejected unless floating point, before the flag is stored', f.loc)
+
+
+# ------------------------------------------------------------------------------------------------ guards
+def _raise_guards(f):
+    return [n for n in body_walk(f.node) if isinstance(n, ast.If) and n.body and isinstance(n.body[-1], ast.Raise) and not n.orelse]
+
+
+def _guard_ok(R, model, qual, mapping, raises_when, effect_pred, what):
+    f = model.func(qual)
+    cfg = CFG(f.node)
+    guards = _raise_guards(f)
+    effects = [n for n in body_walk(f.node) if effect_pred(n)]
+    if not effects:
+        R.incomplete_at('C07.GUARDS', qual, 'protected effect not found')
+        return
+    atoms = sorted({a for a, _ in mapping.values()})
+    found = False
+    for g in guards:
+        try:
+            same = True
+            for vals in itertools.product((False, True), repeat=len(atoms)):
+                asg = dict(zip(atoms, vals))
+                if E.eval_bool(g.test, E.atom_valuation(mapping, asg)) != raises_when(asg):
+                    same = False
+            if same and all(cfg.dominates(g, e) for e in effects):
+                found = True
+        except Incomplete:
+            continue
+    R.ob('C07.GUARDS', qual, what, found, 'the rejecting guard must raise exactly in the stated case and dominate the effect it protects', f.loc)
+
+
+def check_guards(model, R):
+    R.rule('C07.GUARDS', 'the flag guards (requires_grad setter: leaf + float; retain_grad; backward; numpy; grad_fn setter) raise in exactly the forbidden case and dominate the protected effect', floor=6)
+    def store_to(attr):
+        return lambda n: isinstance(n, ast.Assign) and any(isinstance(t, ast.Attribute) and t.attr == attr for t in n.targets)
+    _guard_ok(R, model, TENSOR + '.requires_grad.setter', {'self.is_leaf': ('L', True)}, lambda a: not a['L'], store_to('_requires_grad'), 'only leaves may change requires_grad')
+    _guard_ok(R, model, TENSOR + '.requires_grad.setter', {'value': ('V', True), 'self.is_floating_point': ('F', True)}, lambda a: a['V'] and not a['F'], store_to('_requires_grad'), 'only floating-point tensors may be set to require grad')
+    _guard_ok(R, model, TENSOR + '.retain_grad', {'self.requires_grad': ('R', True), 'self._requires_grad': ('R', True)}, lambda a: not a['R'], store_to('_retain_grad'), 'retain_grad() refused on tensors that do not require grad')
+    _guard_ok(R, model, TENSOR + '.numpy', {'self.requires_grad': ('R', True), 'self._requires_grad': ('R', True)}, lambda a: a['R'], lambda n: isinstance(n, ast.Return), 'numpy() refused on tensors that require grad')
+    _guard_ok(R, model, TENSOR + '.grad_fn.setter', {'grad_fn is not None': ('G', True), 'grad_fn is None': ('G', False), 'self.requires_grad': ('R', True), 'self._requires_grad': ('R', True)},
+              lambda a: a['G'] and not a['R'], store_to('_grad_fn'), 'a tensor that does not require grad cannot carry a backward function')
+    _guard_ok(R, model, TENSOR + '.backward', {'self.requires_grad': ('R', True), 'self._requires_grad': ('R', True)}, lambda a: not a['R'],
+              lambda n: isinstance(n, (ast.For, ast.While)), 'backward() refused on tensors that do not require grad')
+
+
+# ------------------------------------------------------------------------------------------------ context managers
+def check_ctx(model, R, clsname, flag, enter_value):
+    rule = 'C07.CTX'
+    R.rule(rule, 'no_grad / retain_grads read the previous mode in __enter__, keep it per entry (stack), restore it unconditionally in __exit__ and do not swallow exceptions', floor=10)
+    c = model.classes.get('%s.%s' % (TMOD, clsname))
+    if c is None:
+        f = model.funcs.get('%s.%s' % (TMOD, clsname))
+        if f is not None and any('contextmanager' in norm(d) for d in f.node.decorator_list):
+            _check_generator_ctx(model, R, f, flag, enter_value)
+            return
+        raise Incomplete('context manager %s not found' % clsname)
+    q = c.qualname
+    enter, exit_, init = c.methods.get('__enter__'), c.methods.get('__exit__'), c.methods.get('__init__')
+    if enter is None or exit_ is None:
+        R.ob(rule, q, '__enter__/__exit__', False, 'not a context manager', c.loc)
+        return
+    # (1) __init__ does not read the mode
+    reads_init = init is not None and any(isinstance(n, ast.Name) and n.id == flag and isinstance(n.ctx, ast.Load) for n in ast.walk(init.node))
+    R.ob(rule, q, '__init__ does not read %s' % flag, not reads_init,
+         'the mode must be saved when the block is ENTERED: a manager built in one mode and entered in another (or entered twice) restores the wrong mode', init.loc if init else c.loc)
+    # (2) __enter__: save into per-entry storage before overwriting
+    ecfg = CFG(enter.node)
+    saves = []
+    for n in body_walk(enter.node):
+        if isinstance(n, ast.Expr) and isinstance(n.value, ast.Call) and isinstance(n.value.func, ast.Attribute) and n.value.func.attr == 'append' \
+                and len(n.value.args) == 1 and norm(n.value.args[0]) == flag and norm(n.value.func.value).startswith('self.'):
+            saves.append(('stack', norm(n.value.func.value), n))
+        if isinstance(n, ast.Assign) and norm(n.value) == flag and isinstance(n.targets[0], ast.Attribute) and norm(n.targets[0].value) == 'self':
+            saves.append(('attr', norm(n.targets[0]), n))
+    sets = [n for n in body_walk(enter.node) if isinstance(n, ast.Assign) and any(isinstance(t, ast.Name) and t.id == flag for t in n.targets)]
+    decl = any(isinstance(n, ast.Global) and flag in n.names for n in body_walk(enter.node))
+    ok_set = len(sets) == 1 and decl and isinstance(sets[0].value, ast.Constant) and sets[0].value.value is enter_value and not ecfg.conditions(sets[0])
+    R.ob(rule, q, '__enter__ sets %s = %s' % (flag, enter_value), ok_set, 'entering must switch the global mode (needs `global %s`) unconditionally' % flag, enter.loc)
+    ok_save = len(saves) == 1 and bool(sets) and ecfg.dominates(saves[0][2], sets[0]) and saves[0][2] is not sets[0] and not ecfg.conditions(saves[0][2])
+    R.ob(rule, q, '__enter__ saves the previous mode: %s' % ([norm(s[2]) for s in saves]), ok_save, 'the previous mode must be read in __enter__ before it is overwritten', enter.loc)
+    if saves:
+        R.ob(rule, q, 'per-entry storage (%s)' % saves[0][0], saves[0][0] == 'stack',
+             'a single attribute is overwritten when the same manager object is entered twice (nested): the saved modes must form a stack', enter.loc)
+    # (3) __exit__: unconditional restore from that storage, falsy return
+    xcfg = CFG(exit_.node)
+    restores = [n for n in body_walk(exit_.node) if isinstance(n, ast.Assign) and any(isinstance(t, ast.Name) and t.id == flag for t in n.targets)]
+    declx = any(isinstance(n, ast.Global) and flag in n.names for n in body_walk(exit_.node))
+    ok = len(restores) == 1 and declx and not xcfg.conditions(restores[0])
+    if ok and saves:
+        v = norm(restores[0].value)
+        ok = v == '%s.pop()' % saves[0][1] if saves[0][0] == 'stack' else v == saves[0][1]
+    R.ob(rule, q, '__exit__ restores: %s' % [norm(r) for r in restores], ok,
+         '__exit__ must restore the saved mode on every path (also when exc_type is set), from the storage __enter__ wrote (needs `global %s`)' % flag, exit_.loc)
+    rets = [n for n in body_walk(exit_.node) if isinstance(n, ast.Return) and n.value is not None and not (isinstance(n.value, ast.Constant) and not n.value.value)]
+    R.ob(rule, q, '__exit__ returns a falsy value', not rets, 'a truthy return from __exit__ swallows the exception raised inside the block', exit_.loc)
+
+
+def _check_generator_ctx(model, R, f, flag, enter_value):
+    rule = 'C07.CTX'
+    q = f.qualname
+    ys = [n for n in ast.walk(f.node) if isinstance(n, ast.Yield)]
+    tries = [n for n in body_walk(f.node) if isinstance(n, ast.Try) and n.finalbody]
+    ok = len(ys) == 1 and len(tries) == 1 and any(x is ys[0] for s in tries[0].body for x in ast.walk(s))
+    saves = [n for n in body_walk(f.node) if isinstance(n, ast.Assign) and norm(n.value) == flag and isinstance(n.targets[0], ast.Name)]
+    ok = ok and len(saves) == 1
+    if ok:
+        restore = [n for s in tries[0].finalbody for n in ast.walk(s) if isinstance(n, ast.Assign) and any(isinstance(t, ast.Name) and t.id == flag for t in n.targets)]
+        ok = len(restore) == 1 and norm(restore[0].value) == saves[0].targets[0].id
+    R.ob(rule, q, 'generator context manager with try/finally restore', ok, 'save to a local before the yield, restore in finally', f.loc)
+    for _ in range(5):
+        R.ob(rule, q, 'generator form (local per entry)', ok, '', f.loc)
+
+
+# ------------------------------------------------------------------------------------------------ clients
+def check_clients(model, R):
+    R.rule('C07.CLIENTS', 'every use of no_grad / retain_grads inside the package builds the manager in the `with` header', floor=5)
+    for fn in model.funcs.values():
+        if fn.parent is not None:
+            continue
+        for n in ast.walk(fn.node):
+            if isinstance(n, (ast.With,)):
+                for it in n.items:
+                    e = it.context_expr
+                    txt = norm(e)
+                    if 'no_grad' in txt or 'retain_grads' in txt:
+                        R.ob('C07.CLIENTS', fn.qualname, 'with ' + txt, isinstance(e, ast.Call) and it.optional_vars is None,
+                             'the manager must be constructed in the with header', '%s:%d' % (fn.mod.relpath, n.lineno))
+            if isinstance(n, ast.Assign) and isinstance(n.value, ast.Call) and (norm(n.value.func).endswith('no_grad') or norm(n.value.func).endswith('retain_grads')):
+                R.ob('C07.CLIENTS', fn.qualname, norm(n), False, 'a manager object stored for later reuse', '%s:%d' % (fn.mod.relpath, n.lineno))
